@@ -107,7 +107,14 @@ func (fs *CASFileSystem) ChangeDir(path string) *CASFileSystem {
 	}
 }
 
+// maxSymlinks is how many symlinks we follow while opening one name before we decide it's a loop.
+const maxSymlinks = 40
+
 func (fs *CASFileSystem) open(name string) (iofs.File, error) {
+	return fs.openFollowing(name, 0)
+}
+
+func (fs *CASFileSystem) openFollowing(name string, links int) (iofs.File, error) {
 	fileNode, dirNode, linkNode, err := fs.findNode(fs.root, name)
 	if err != nil {
 		return nil, err
@@ -116,8 +123,10 @@ func (fs *CASFileSystem) open(name string) (iofs.File, error) {
 	if linkNode != nil {
 		if filepath.IsAbs(linkNode.Target) {
 			return nil, fmt.Errorf("%v: symlink target was absolute which is invalid", name)
+		} else if links >= maxSymlinks {
+			return nil, fmt.Errorf("%v: too many levels of symbolic links", name)
 		}
-		return fs.open(filepath.Join(filepath.Dir(name), linkNode.Target))
+		return fs.openFollowing(filepath.Join(filepath.Dir(name), linkNode.Target), links+1)
 	}
 
 	if fileNode != nil {
